@@ -453,12 +453,11 @@ class Project(MessageHandler):
                 for child in task.children:
                     propagate_end_to_children(child, effective_end)
 
-        # Start from root tasks (no parent)
+        # Start from root tasks (no parent). A root without an end of its own may still hold
+        # containers that have one.
         for task in self.tasks:
             if task.parent is None:
-                task_end = task.get("end", scIdx)
-                if task_end:
-                    propagate_end_to_children(task, task_end)
+                propagate_end_to_children(task, task.get("end", scIdx) or None)
 
     def finishScenario(self, scIdx: int) -> None:
         for task in self.tasks:
